@@ -1,6 +1,7 @@
 package props
 
 import (
+	"strings"
 	"sync"
 
 	"github.com/wkhere/bcl"
@@ -15,6 +16,8 @@ var c12Inputs = []string{
 	"print )\nvar a = 1\nvar b = a + 2 * 3 - 4\nprint ( b\nvar c = b + a + 1 + 2 + 3\nprint c c\nvar d = 1 + 2 + 3 + 4 + 5 + 6\nprint d\n",
 	"var a = 1\nvar b = 2\nprint a + b\ndef t {\n f = a\n g = b + f\n}\nprint a * b - 1\n",
 	"print 1 +\nprint 2 +\nprint 3 +\nprint 4 +\nprint 5 + 6 + 7 + 8 + 9 + 10 + 11 + 12\nprint $\nprint 13\n",
+	strings.Repeat("eval )\n", 70) + "print 1\n", // more line feeds than the line table's initial capacity
+	"print $\nprint 1\nprint 2\nprint 3\n",       // early lexical failure, reader still running
 }
 
 // C12_Pipeline: one ParseFile call reading 7 (or 3, or 64) bytes at a time;
@@ -27,9 +30,18 @@ func C12_Pipeline() {
 		chunks = []int{7, 3, 64, 1, 2, 5, 11, 16, 4096}
 	}
 	chunk := chunks[verif.Choice("chunk", len(chunks))]
+	if len(src) > 300 && chunk < 64 {
+		// the long input is read in larger pieces (the event log of a
+		// 160-read execution makes the happens-before queries needlessly many)
+		chunk = 64
+	}
 	var script []symio.Step
+	zero := verif.Choice("zero-reads", 2) == 1
 	for i := 0; i*chunk < len(src); i++ {
 		script = append(script, symio.Step{N: chunk})
+		if zero {
+			script = append(script, symio.Step{N: 0})
+		}
 	}
 	f := &symio.File{Data: []byte(src), Script: script, FileName: "f"}
 	out, log := &symio.Writer{}, &symio.Writer{}
@@ -85,7 +97,7 @@ func c16DumpOf(src string) []byte {
 // C12_SharedProg: one Prog executed from two goroutines into a writer that
 // is safe for concurrent use: no race on the Prog, results as sequential.
 func C12_SharedProg() {
-	src := "var x = 1001\nprint x + 1\ndef t {\n f = x * 2\n}\nbind t -> struct\nprint \"end\"\n"
+	src := "var x = 1001\nprint x + 1\ndef t {\n f = x * 2\n}\nbind t -> struct\nbind t -> slice\nbind t:1 -> struct\nprint \"end\"\n"
 	w := &lockedWriter{}
 	log := &lockedWriter{}
 	p, err := bcl.Parse([]byte(src), "x", bcl.OptOutput(w), bcl.OptLogger(log))
@@ -109,6 +121,7 @@ func C12_SharedProg() {
 	b0, _, e0 := bcl.Execute(p)
 	verif.Assert(e0 == nil && e1 == nil && e2 == nil, "no error")
 	verif.Assert(blocksEqual(b0, b1) && blocksEqual(b0, b2), "concurrent executions equal the sequential one")
+	verif.Assert(strings.Count(string(log.buf), "WARNING") == 6, "every execution logs its own warnings")
 	verif.Reach("returned")
 }
 
